@@ -26,10 +26,10 @@ def corpus(tier, seed):
         s, c = rng.choice([(5, 2), (3, 3), (2, 5), (6, 2), (4, 2), (2, 4)])
         progs.append(core.rand_prog(rng, s, c, p_undef=rng.choice([0.0, 0.1, 0.2]), normal=True))
     named = core.named_progs()
-    ladder = [1, 5, 20, 100, 500, 2000, 10000] if tier == "thorough" else [20, 200, 2000]
+    ladder = [1, 5, 20, 100, 500, 2000] if tier == "thorough" else [20, 200, 2000]
     cases = []
-    for p in progs:
-        for lim in (ladder if tier == "thorough" else [rng.choice(ladder), 2000]):
+    for k, p in enumerate(progs):
+        for lim in (rng.sample(ladder, 3) + ([10000] if k % 40 == 0 else []) if tier == "thorough" else [rng.choice(ladder), 2000]):
             cases.append((lim, p))
     for p in named:
         for lim in ([100, 2000, 10000] if tier == "thorough" else [2000]):
